@@ -5,7 +5,7 @@ import random
 from . import types as T
 from .refcodec import FMAX
 
-CHARS = ["a", "Z", "0", " ", "é", "ß", "中", "☃", "😀", "\x00", "\x7f", "\n"]
+CHARS = ["a", "Z", "0", " ", "é", "ß", "中", "☃", "😀", "\x00", "\x7f", "\n", "\ufeff", "\ufeff", "\u2028", "\ufffd", "\x85", "e\u0301"]
 TINY = {16: 6e-8, 32: 1e-45, 64: 5e-324}
 
 
@@ -19,6 +19,9 @@ def gen_scalar(rng: random.Random, t: list, in_range: bool = False):
         c = [0, 1 if hi >= 1 else 0, hi, hi // 2, rng.randint(0, hi)]
         if not in_range and k == "u":
             c += [hi + 1, -1, 2 * hi + 5, -hi - 3, (1 << 70) + 3]
+            if k == "u":
+                # numbers given as Python floats with integral values (the float is the number it is)
+                c += [float(hi + 1), 2.0 * float(hi + 1), 1e19, 2e19, -1.0, -1e19, 1.5e18, 3.0, 0.0]
         return rng.choice(c)
     if k == "i":
         n = t[1]
@@ -26,6 +29,7 @@ def gen_scalar(rng: random.Random, t: list, in_range: bool = False):
         c = [0, -1, lo, hi, lo + 1, hi - 1 if hi > 0 else 0, rng.randint(lo, hi)]
         if not in_range:
             c += [lo - 1, hi + 1, 3 * hi + 7, 3 * lo - 7, -(1 << 70)]
+            c += [float(hi + 1), float(lo), 2.0 * float(lo), 1e19, -1e19, 1.5e18, -2.0, 0.0, float(1 << 63)]
         return rng.choice(c)
     if k == "f":
         w = t[1]
